@@ -2992,14 +2992,13 @@ impl<T: TypeConfig> LeaderState<T> {
         let replication_targets = &self.cluster_metadata.replication_targets;
         let learner_role = d_engine_proto::common::NodeRole::Learner as i32;
 
-        // Only voter peers (non-Learner) contribute to the commit quorum.
-        let matched_ids: Vec<u64> = self
-            .match_index
+        // Only voter peers (non-Learner) contribute to the commit quorum. Every voter counts,
+        // including those that have not acknowledged anything yet (match index 0): leaving them
+        // out would shrink the quorum to the peers that happened to answer.
+        let matched_ids: Vec<u64> = replication_targets
             .iter()
-            .filter(|(id, _)| {
-                replication_targets.iter().any(|n| n.id == **id && n.role != learner_role)
-            })
-            .map(|(_, idx)| *idx)
+            .filter(|n| n.role != learner_role)
+            .map(|n| self.match_index.get(&n.id).copied().unwrap_or(0))
             .collect();
 
         let new_commit_index =
